@@ -242,7 +242,7 @@ func TestC06(t *testing.T) {
 		}
 		return nil
 	})
-	if ev.Thorough() && ev.Cfg.Shard == 0 {
+	if (ev.Thorough() || ev.Cfg.Replay != "") && ev.Cfg.Shard == 0 {
 		// a list of more than 2^24 words, one of which ("4") is its own
 		// title-cased form: the password made of that word alone is produced
 		// whenever every word draw picks it, whatever the capitalisation coins
